@@ -165,7 +165,7 @@ def check(run, ctx):
                 else:
                     run.ok(B6, sym, f"line of `{b}`; no argument is a part of `{b}`")
 
-    B2 = run.rule("B2", "file-level violations (file-placement, missing header, orphaned header entry) use a constant line >= 1", floor=4)
+    B2 = run.rule("B2", "file-level violations (file-placement, missing header, orphaned header entry) use a constant line >= 1", floor=1)   # the constructions may be shared by one helper
     for sk in sinks:
         e = sk["args"].get("line")
         if isinstance(e, ast.Constant):
